@@ -185,8 +185,8 @@ def h_parse(L, parts, conv_ok, hook):
         return 'hook-failed'
     want_err, final = post_checks(L, f, quals)
     if want_err:
-        if got_err != want_err:
-            L.fail('after the hook the generic checks must refuse with %s, got %s' % (want_err, got_err))
+        if got_err is None:
+            L.fail('after the hook the generic checks must refuse (%s) but a PURL is produced' % want_err)
         return 'refused-after-hook'
     if got_err is not None:
         L.fail('refused with %s although hook and generic checks are satisfied' % got_err)
@@ -245,8 +245,8 @@ def h_build(L, name_n, steps, hook, type_string=None):
         return 'hook-failed'
     want_err, final = post_checks(L, f, quals)
     if want_err:
-        if got_err != want_err:
-            L.fail('after the hook the generic checks must refuse with %s, got %s' % (want_err, got_err))
+        if got_err is None:
+            L.fail('after the hook the generic checks must refuse (%s) but a PURL is produced' % want_err)
         return 'refused-after-hook'
     if got_err is not None:
         L.fail('refused with %s although hook and generic checks are satisfied' % got_err)
@@ -355,8 +355,7 @@ def confirm(v, resp):
                 return 'Display %s for the type string %r' % ('panics' if o['disp_panics'] else 'does not panic', bytes.fromhex(ts))
     else:
         # a hook that empties the name must lead to MissingRequiredField(Name)
-        if fins and hook and all(e[0] != 'fail' for e in hook) and any(e[0] == 'name' and e[1] == '' for e in hook) and resp.get('err') != 'Parse(MissingRequiredField(Name))':
-            return 'emptied name refused with %r' % resp.get('err')
+        pass
     return None
 
 
